@@ -2,7 +2,7 @@
    ONLY statements: each theorem is closed by `exact` of a lemma proved elsewhere and followed by Print Assumptions. *)
 From Coq Require Import ZArith NArith List Bool Lia Permutation SpecFloat.
 Import ListNotations.
-Require Import Base Float Strings Builtins Interp Machine Spec Refine2 RunG EqLink Eq Order Complex.
+Require Import Base Float Strings Builtins Interp Machine Spec Refine2 RunG EqLink DictLink Eq Order Complex.
 Open Scope Z_scope.
 (* the built-in ㄴ on two arguments is veqb on their key forms - the relation the theorems below are about *)
 Theorem eq_two (rec : list positive -> heap -> world -> task -> out) (key : value -> value) (KEYS : forall ip h w a, rec ip h w (TComp (proc_body (PKey a))) = Done h w (inl (key a)) 0) sp a b ip h w :
@@ -15,6 +15,25 @@ Theorem eq_many (rec : list positive -> heap -> world -> task -> out) (key : val
   runG rec value ip h w (bi_eq sp (a :: l)) = DoneG h w (inl (VBool (forallb (fun b => veqb (key a) (key b)) l))) 0.
 Proof. exact (EqLink.eq_many rec key KEYS sp a l ip h w). Qed.
 Print Assumptions eq_many.
+
+(* ㅅㅈ inside the evaluator: the pairs inserted left to right under the key forms of the keys (dict_insert: a later equal key replaces the earlier entry) *)
+Theorem dict_construction (rec : list positive -> heap -> world -> task -> out) (deep key : value -> value) (DEEP : forall ip h w a, rec ip h w (TComp (proc_body (PDeep a))) = Done h w (inl (deep a)) 0) (KEYS : forall ip h w a, rec ip h w (TComp (proc_body (PKey a))) = Done h w (inl (key a)) 0) sp argv ip h w :
+  Nat.odd (length argv) = false ->
+  runG rec value ip h w (bi_dict sp argv) = DoneG h w (inl (VDict (zipd (map key (map deep (evens argv))) (odds argv) []))) 0.
+Proof. exact (DictLink.dict_construction rec deep key DEEP KEYS sp argv ip h w). Qed.
+Print Assumptions dict_construction.
+
+Theorem dict_construction_odd (rec : list positive -> heap -> world -> task -> out) sp argv ip h w :
+  Nat.odd (length argv) = true -> runG rec value ip h w (bi_dict sp argv) = DoneG h w (inr (mkerr c_value sp)) 0.
+Proof. exact (DictLink.dict_construction_odd rec sp argv ip h w). Qed.
+Print Assumptions dict_construction_odd.
+
+(* ㄷ on dictionaries: the entries of every operand, in order, inserted into one dictionary *)
+Theorem dict_merge rec sp d1 d2 ip h w :
+  runG rec value ip h w (bi_add sp [VDict d1; VDict d2]) =
+  DoneG h w (inl (VDict (fold_left (fun a kv => dict_insert a (fst kv) (snd kv)) d2 (fold_left (fun a kv => dict_insert a (fst kv) (snd kv)) d1 [])))) 0.
+Proof. exact (DictLink.dict_merge rec sp d1 d2 ip h w). Qed.
+Print Assumptions dict_merge.
 
 Theorem veqb_sym  :
   forall a b, veqb a b = veqb b a.
